@@ -90,7 +90,7 @@ pub fn structure(rng: &mut Rng, kind: usize) -> Vec<Q> {
             d.push(q);
         }
     };
-    match kind % 14 {
+    match kind % 16 {
         0 => {
             for i in 0..n {
                 push(&mut d, b(i), p(0), b((i + 1) % n), None);
@@ -201,7 +201,7 @@ pub fn structure(rng: &mut Rng, kind: usize) -> Vec<Q> {
                 push(&mut d, b(1), p(0), b(0), None);
             }
         }
-        13 if (kind / 14) % 4 == 0 => {
+        13 if (kind / 16) % 4 == 0 => {
             // twins across graphs: a-x in one graph and a-y in another, b-y in the first and b-x in the second (k such pairs on a ring).
             // From a's side x and y have the same related hash (position, predicate, first-degree hash - not the quad's graph name)
             // without being interchangeable.
@@ -214,6 +214,39 @@ pub fn structure(rng: &mut Rng, kind: usize) -> Vec<Q> {
             for i in 0..k {
                 push(&mut d, b(i), p(0), b(10 + i), g1.clone());
                 push(&mut d, b(i), p(0), b(10 + (i + 1) % k), g2.clone());
+            }
+        }
+        14 => {
+            // double edges: n_i -p-> x_i and n_i -q-> x_i (two statements between the same pair, same direction), the pairs chained
+            // x_i -p-> n_(i+1): n_1, n_2 ... tie at first degree without being interchangeable
+            let k = 2 + rng.below(2);
+            for i in 0..k {
+                push(&mut d, b(i), p(0), b(10 + i), None);
+                push(&mut d, b(i), p(1), b(10 + i), None);
+                if i + 1 < k {
+                    push(&mut d, b(10 + i), p(0), b(i + 1), None);
+                }
+            }
+            if rng.chance(1, 2) {
+                push(&mut d, b(10 + k - 1), p(0), b(k), None);
+                push(&mut d, b(k), p(0), b(10 + k), None);
+                push(&mut d, b(k), p(1), b(10 + k), None);
+            }
+        }
+        15 => {
+            // blank nodes that differ ONLY in the case of a language tag, or in one escape-relevant character of a literal
+            let pairs: [(ST, ST); 4] = [
+                (lit_lang("chat", "fr-be"), lit_lang("chat", "fr-BE")),
+                (lit_dt("a\\n", &format!("{XSD}string")), lit_dt("a\n", &format!("{XSD}string"))),
+                (lit_dt("\\", &format!("{XSD}string")), lit_dt("\\\\", &format!("{XSD}string"))),
+                (lit_lang("x", "EN"), lit_lang("x", "en")),
+            ];
+            let (l1, l2) = rng.pick(&pairs).clone();
+            push(&mut d, b(0), p(0), l1, None);
+            push(&mut d, b(1), p(0), l2, None);
+            if rng.chance(1, 2) {
+                push(&mut d, b(0), p(1), b(2), None);
+                push(&mut d, b(1), p(1), b(3), None);
             }
         }
         _ => {
@@ -238,7 +271,7 @@ pub fn structure(rng: &mut Rng, kind: usize) -> Vec<Q> {
     // decorations that break or keep symmetry
     if rng.chance(1, 3) {
         let i = rng.below(n);
-        push(&mut d, b(i), p(1), lit_dt("x", &format!("{XSD}string")), None);
+        push(&mut d, b(i), p(1), lit_dt(*rng.pick(&["x", "x", "a\\n", "\\", "tab\there"]), &format!("{XSD}string")), None);
     }
     d
 }
@@ -285,7 +318,18 @@ fn content<D: SetDataset>(x: &D) -> Vec<Value> {
 }
 fn member(d: &[Q], container: usize) -> Value {
     // the dataset under test is what the container holds (an indexed store keeps the first spelling of a language tag)
-    let (name, n256, n384, rl, rl2, held) = match container % 4 {
+    // spellings of one language tag that differ in case are one term for an indexed store (it keeps the first): such datasets are only
+    // held in containers that keep every statement as given
+    let mut tags: Vec<String> = vec![];
+    for q in d {
+        for t in q.0.iter() {
+            if let Some(tag) = sophia_api::term::Term::language_tag(t) {
+                tags.push(tag.as_str().to_string());
+            }
+        }
+    }
+    let case_variants = tags.iter().any(|a| tags.iter().any(|b| a != b && a.eq_ignore_ascii_case(b)));
+    let (name, n256, n384, rl, rl2, held) = match if case_variants { container % 2 } else { container % 4 } {
         0 => {
             let x: HashSet<Spog<ST>> = d.iter().cloned().collect();
             ("HashSet<Spog>", norm(&x, false), norm(&x, true), relabel_json(&x, false), relabel_json(&x, true), content(&x))
